@@ -421,7 +421,7 @@ RULE = ("random histories of 4-14 operations over 1-3 objects (json values, tabl
         "configurations created, registered into, made global and dropped, every way of passing the palette "
         "(configuration, palette object, synced palette, global) and of consuming the result (whole, by line, both "
         "orders); plus hunts that repeat 'render under A, drop A, create B, render' until a palette identity is "
-        "re-used.  Non-trivial = the history renders some object at least twice under different configurations or "
+        "re-used, and targeted 'render, register (new + existing ids), render' histories.  Non-trivial = the history renders some object at least twice under different configurations or "
         "after a registration / drop.")
 TRUSTED_BASE = [
     "the chunk program of every object (which palette accessor colours which text) is taken from the implementation by a probe rendering with an instrumented palette on a fresh copy of the object; the layout code that produces it (pretty-printer, table, record, report, help formatters) is NOT modelled in Coq",
@@ -668,15 +668,41 @@ def _hunt_case(rng):
                     ["newconf", 1, False, {"RECORD.NUMBER": b, "NAME": b}], ["render", 0, 1, False, "none", 0], ["drop", 1]]}
 
 
+def _reg_case(rng):
+    """registration after a rendering: a built-in id whose parent is a user id that is only registered later,
+    together with (or without) ids that exist already -- the palette cached by the first rendering must not
+    survive the registration"""
+    a, b, c = rng.sample(COLORS[1:], 3)
+    target = rng.choice(["NUMBER", "NAME", "KEYWORD"])
+    init = {target: rng.choice(["U.B", "U.B:bold", "U.B:" + c])}
+    if rng.random() < 0.7:
+        init["U.A"] = a
+    reg = {"U.B": rng.choice([b, b + ":bold"])}
+    if rng.random() < 0.7:
+        reg = dict([("U.A", c)] + list(reg.items())) if rng.random() < 0.5 else dict(list(reg.items()) + [("U.A", c)])
+    obj = rng.choice([
+        {"k": "json", "v": _fix_keys({"id": 7, "name": "x", "ok": True, "l": [1, "two", None]}), "fj": False},
+        {"k": "table", "fields": ["id", "nm"], "ft": {}, "fmt": None, "recs": [[1, "a"], [22, "bb"]], "header": None, "footer": "", "titles": None},
+    ])
+    ops = [["newconf", 0, False, init], ["render", 0, 0, False, "none", rng.choice([0, 1])]]
+    if rng.random() < 0.3:
+        ops.append(["setglobal", 0])
+    ops += [["reg", 0, reg], ["render", 0, 0, False, rng.choice(["none", "none", ["obj", 0]]), 0]]
+    if isinstance(ops[-1][4], list):
+        ops[-1][2] = None
+    return {"fts": [], "objs": [obj], "ops": ops}
+
+
 def gen_cases(rng, tier):
     big = tier == "thorough"
     cases = [_rand_history(rng, big) for _ in range(6000 if big else 420)]
+    cases += [_reg_case(rng) for _ in range(200 if big else 12)]
     cases += [_hunt_case(rng) for _ in range(12 if big else 3)]
     return cases
 
 
 def search_cases(rng, tier):
-    return [_hunt_case(rng) for _ in range(30)] + [_rand_history(rng, True) for _ in range(600)]
+    return [_hunt_case(rng) for _ in range(30)] + [_reg_case(rng) for _ in range(60)] + [_rand_history(rng, True) for _ in range(600)]
 
 
 def kind(case):
@@ -1194,7 +1220,13 @@ def impl_run(case):
         progs = []
         for oi in range(len(case["objs"])):
             pw = _World(case, probe)        # fresh field types for every probe
-            progs.append(probe.program(pw.objs[oi]))
+            try:
+                progs.append(probe.program(pw.objs[oi]))
+            except ExtractError as e:
+                # the object prints something that does not come from its palette (e.g. a hard-coded colour):
+                # no chunk program, the case is outside the model; the oracle still sees the history
+                progs.append(None)
+                probe.oom = "probe: " + str(e)[:200]
         ftdefs = [[[li, probe.lits[i].keys[li], {str(mi): d[mi][0] for mi in d}] for li, d in sorted(fd.items())] for i, fd in enumerate(probe.ftdefs)]
         del pw
         oom, aliased = probe.oom, probe.aliased
@@ -1410,7 +1442,7 @@ def oracle(case, obs):
             sig = "history-dependent"
             if op[0] == "help" and t == rec.get("ref_ctor"):
                 sig = "hdoc-captured-palette"
-            elif op[0] == "render" and obs.get("progs") is not None:
+            elif op[0] == "render" and obs.get("progs") is not None and obs["progs"][op[1]] is not None:
                 prog = obs["progs"][op[1]]
                 has_enum = any(it[0] == "e" for l in prog.get("lines", []) for it in l)
                 if _dangling_package_parent(snaps[i]["conf"]):
